@@ -15,7 +15,14 @@
 (*   network/network.go Configure     TLS disabled (only with did:nuts)    *)
 (*   auth/auth.go Configure           IRMA scheme manager                  *)
 (*   auth/services/notary Configure   dummy means dropped                  *)
-(*   http/engine.go configureClient   client.StrictMode                    *)
+(*   http/engine.go configureClient   client.StrictMode (registered LAST)  *)
+(* The HTTP engine is configured last, yet vdr (did:web resolver), vcr     *)
+(* (OpenID4VCI issuer/wallet clients, StatusList2021 client) and discovery *)
+(* construct their long-lived StrictHTTPClients in their OWN Configure,    *)
+(* i.e. while client.StrictMode still has its zero value.  The walk keeps  *)
+(* the live flag and, per holder, the value the flag had when its client   *)
+(* was built, so that "is the flag read when the request is made or when   *)
+(* the client is made" is a property of the model (LiveStrictFlag).        *)
 (* A running node then performs actions whose guards are transcribed too:  *)
 (*   notary.CreateSigningSession / VerifyVP with the dummy means           *)
 (*   jsonld document loader on a context URL                               *)
@@ -30,10 +37,15 @@ EXTENDS Naturals, FiniteSets, Sequences, TLC
 
 CONSTANTS
     RedirectGuard,   \* TRUE: a redirect to plain http:// is refused in strict mode.  FALSE: StrictHTTPClient checks the first request only (F14)
+    LiveStrictFlag,  \* TRUE: StrictHTTPClient.Do reads client.StrictMode when the request is made (the tree).  FALSE: the client keeps the
+                     \*       value the flag had when it was constructed - wrong for every client built before http.Engine.Configure
     AuthPassesStrictMode,  \* TRUE: Auth.IAMClient() hands the node's strict mode to the IAM client.  FALSE: auth.strictMode is declared and
                      \*       read but never assigned, the IAM client of a running node validates URLs with ParsePublicURL(.., false)
     Urls, Tls, Cryptos, Sqls, Irmas, DidMethods, Moved, Secrets, SecretVia,   \* option classes
     OutUrls, OutEntries, Contexts, AllowLists                                    \* action classes
+\* on which running vectors actions are explored: the action guards read v.strict, v.dummy, flag and snap only (and flag / snap are
+\* functions of v.strict), so one canonical vector per (strict, dummy) suffices; the thorough tier explores all of them
+CONSTANT ActScope(_)
 
 None == "none"
 
@@ -58,7 +70,9 @@ LoadGuard(v) == CASE SecretOnCommandLine(v) -> "secret-flag"          \* loadFro
                   [] MovedKey(v)            -> "moved-key"
                   [] OTHER                  -> ""
 
-Engines == <<"storage", "crypto", "jsonld", "vdr", "network", "auth", "http">>   \* relative order in cmd.CreateSystem
+Engines == <<"storage", "crypto", "jsonld", "vdr", "vcr", "network", "auth", "discovery", "http">>   \* relative order in cmd.CreateSystem
+\* engines that construct a long-lived StrictHTTPClient in their Configure
+ClientHolders == {"vdr", "vcr", "discovery"}
 
 UrlGuard(v) == \/ UrlUnusable(v.url)
                \/ (v.strict /\ UrlInsecure(v.url))
@@ -70,6 +84,7 @@ ConfigureGuard(e, v) ==
       [] e = "network" -> IF HasNuts(v.did) /\ v.strict /\ v.tls = "off" THEN "tls-off" ELSE ""
       [] e = "auth"    -> IF v.strict /\ v.irma # "pbdf" THEN "irma-scheme"
                           ELSE IF UrlGuard(v) THEN "public-url" ELSE ""
+      [] e = "discovery" -> IF UrlGuard(v) THEN "public-url" ELSE ""
       [] OTHER         -> ""
 
 (*--------------------------- start-up ------------------------------------*)
@@ -79,9 +94,11 @@ VARIABLES
     i,        \* index of the next engine to configure
     by,       \* engine (or "load") that refused
     why,      \* reason of the refusal
-    act, verdict   \* action performed on the running node and its verdict ("none" | "performed" | "refused")
+    act, verdict,  \* action performed on the running node and its verdict ("none" | "performed" | "refused")
+    flag,     \* the package-level client.StrictMode (zero value FALSE until http.Engine.Configure)
+    snap      \* per client holder: the value of the flag at the moment its long-lived client was constructed
 
-vars == <<v, pc, i, by, why, act, verdict>>
+vars == <<v, pc, i, by, why, act, verdict, flag, snap>>
 
 Vec(strictS, urlS, tlsS, crS, sqS, duS, irS, diS, moS, seS, viS) ==
     [strict : strictS, url : urlS, tls : tlsS, crypto : crS, sql : sqS, dummy : duS, irma : irS, did : diS,
@@ -98,31 +115,46 @@ LoadProduct == {[strict |-> s, url |-> b.url, tls |-> b.tls, crypto |-> b.crypto
 LoadVectors == {lv \in LoadProduct : (lv.secret = None) = (lv.via = None)}
 Vectors == EngineVectors \cup LoadVectors
 
+\* who holds the StrictHTTPClient an entry point sends its request through, i.e. WHEN that client was constructed:
+\*   an engine      long-lived client built in that engine's Configure (before http.Engine.Configure)
+\*   "early"        a client built before any engine was configured (the earliest possible moment)
+\*   "none"         a client built on demand, when the request is made (iam.NewClient in Auth.IAMClient(), relyingParty, client.New ...)
+Holder(e) == CASE e = "vdr-didweb" -> "vdr"
+               [] e \in {"vcr-statuslist", "vcr-openid4vci-wallet", "vcr-openid4vci-issuer"} -> "vcr"
+               [] e = "discovery-get" -> "discovery"
+               [] e \in {"early-new", "early-cache", "early-tls"} -> "early"
+               [] OTHER -> "none"
+\* a did:web identifier always yields an https:// URL with a host that is no IP address
+Expressible(e, u) == e = "vdr-didweb" => u \in {"https-name", "https-reserved", "https-redirect-http"}
 \* actions of a running node
 Actions == [kind : {"dummy-sign", "dummy-verify"}, arg : {None}, entry : {None}]
            \cup [kind : {"jsonld"}, arg : Contexts, entry : AllowLists]
-           \cup [kind : {"outbound"}, arg : OutUrls, entry : OutEntries]
+           \cup {a \in [kind : {"outbound"}, arg : OutUrls, entry : OutEntries] : Expressible(a.entry, a.arg)}
 NoAct == [kind |-> None, arg |-> None, entry |-> None]
 
 Init == /\ v \in Vectors
         /\ pc = "load" /\ i = 1 /\ by = "" /\ why = "" /\ act = NoAct /\ verdict = None
+        /\ flag = FALSE /\ snap = [h \in ClientHolders |-> FALSE]
 
 Refuse(b, w) == pc' = "refused" /\ by' = b /\ why' = w
 
 Load == /\ pc = "load"
         /\ IF LoadGuard(v) # "" THEN Refuse("load", LoadGuard(v)) /\ UNCHANGED i
            ELSE pc' = "configure" /\ UNCHANGED <<by, why, i>>
-        /\ UNCHANGED <<v, act, verdict>>
+        /\ UNCHANGED <<v, act, verdict, flag, snap>>
 
 Configure == /\ pc = "configure" /\ i <= Len(Engines)
              /\ LET g == ConfigureGuard(Engines[i], v) IN
-                  IF g # "" THEN Refuse(Engines[i], g) /\ UNCHANGED i
-                  ELSE i' = i + 1 /\ UNCHANGED <<pc, by, why>>
+                  IF g # "" THEN Refuse(Engines[i], g) /\ UNCHANGED <<i, flag, snap>>
+                  ELSE /\ i' = i + 1 /\ UNCHANGED <<pc, by, why>>
+                       \* http.Engine.configureClient switches the flag; the holders build their clients with whatever it is now
+                       /\ flag' = IF Engines[i] = "http" THEN v.strict ELSE flag
+                       /\ snap' = IF Engines[i] \in ClientHolders THEN [snap EXCEPT ![Engines[i]] = flag] ELSE snap
              /\ UNCHANGED <<v, act, verdict>>
 
 Start == /\ pc = "configure" /\ i > Len(Engines)
          /\ pc' = "running"
-         /\ UNCHANGED <<v, i, by, why, act, verdict>>
+         /\ UNCHANGED <<v, i, by, why, act, verdict, flag, snap>>
 
 \* --- actions on the running node
 DummyAvailable(vv) == vv.dummy /\ ~vv.strict                       \* notary.Configure
@@ -130,29 +162,33 @@ OutHttp(u)       == u \in {"http-name", "http-ip"}
 OutRedirect(u)   == u = "https-redirect-http"
 OutUnlisted(u)   == u \in {"https-ip", "http-ip", "https-reserved"}  \* refused by core.ParsePublicURL(strict) only
 \* entries that validate the URL with core.ParsePublicURL before handing it to the StrictHTTPClient
-EntryParsesPublicURL(e) == e \notin {"strict-client", "rfc003", "iam-credentials"}
+EntryParsesPublicURL(e) == /\ Holder(e) = "none"
+                           /\ e \notin {"strict-client", "rfc003", "iam-credentials"}
+\* the strict-mode value StrictHTTPClient.Do acts on, for the client behind entry e, given the live flag fl and the snapshots sn
+ClientStrict(e, fl, sn) == IF LiveStrictFlag \/ Holder(e) = "none" THEN fl
+                           ELSE IF Holder(e) = "early" THEN FALSE ELSE sn[Holder(e)]
 \* iamStrict: the strict-mode flag the IAM client was constructed with
-OutboundVerdictWith(vv, u, e, iamStrict) ==
-    IF ~vv.strict THEN "performed"
-    ELSE IF OutHttp(u) THEN "refused"                               \* StrictHTTPClient.Do / relyingParty (/ ParsePublicURL)
-    ELSE IF OutUnlisted(u) /\ EntryParsesPublicURL(e) /\ iamStrict THEN "refused"
+OutboundVerdictWith(vv, u, e, iamStrict, fl, sn) ==
+    IF OutHttp(u) /\ ClientStrict(e, fl, sn) THEN "refused"                                   \* StrictHTTPClient.Do
+    ELSE IF OutHttp(u) /\ e = "rfc003" /\ vv.strict THEN "refused"                           \* relyingParty's own check
+    ELSE IF (OutHttp(u) \/ OutUnlisted(u)) /\ EntryParsesPublicURL(e) /\ iamStrict /\ vv.strict THEN "refused"   \* core.ParsePublicURL
     ELSE "performed"
-OutboundVerdict(vv, u, e) == OutboundVerdictWith(vv, u, e, AuthPassesStrictMode)
-\* does a plain-HTTP request leave the node?
-PlainHttpSent(vv, u, e) == \/ (OutHttp(u) /\ OutboundVerdict(vv, u, e) = "performed")
-                           \/ (OutRedirect(u) /\ OutboundVerdict(vv, u, e) = "performed" /\ ~(vv.strict /\ RedirectGuard))
+OutboundVerdict(vv, u, e, fl, sn) == OutboundVerdictWith(vv, u, e, AuthPassesStrictMode, fl, sn)
+\* does a plain-HTTP request leave the node?  (checkRedirect reads the live flag)
+PlainHttpSent(vv, u, e, fl, sn) == \/ (OutHttp(u) /\ OutboundVerdict(vv, u, e, fl, sn) = "performed")
+                                   \/ (OutRedirect(u) /\ OutboundVerdict(vv, u, e, fl, sn) = "performed" /\ ~(fl /\ RedirectGuard))
 JsonldVerdict(vv, c, al) ==
     CASE c = "embedded" -> "performed"
       [] c = "listed"   -> IF al = "with-url" \/ ~vv.strict THEN "performed" ELSE "refused"
       [] c = "unlisted" -> IF vv.strict THEN "refused" ELSE "performed"
 
-Act == /\ pc = "running" /\ act = NoAct
+Act == /\ pc = "running" /\ act = NoAct /\ ActScope(v)
        /\ \E a \in Actions :
             /\ act' = a
             /\ verdict' = CASE a.kind \in {"dummy-sign", "dummy-verify"} -> IF DummyAvailable(v) THEN "performed" ELSE "refused"
                             [] a.kind = "jsonld"   -> JsonldVerdict(v, a.arg, a.entry)
-                            [] a.kind = "outbound" -> OutboundVerdict(v, a.arg, a.entry)
-       /\ UNCHANGED <<v, pc, i, by, why>>
+                            [] a.kind = "outbound" -> OutboundVerdict(v, a.arg, a.entry, flag, snap)
+       /\ UNCHANGED <<v, pc, i, by, why, flag, snap>>
 
 Next == Load \/ Configure \/ Start \/ Act
 Spec == Init /\ [][Next]_vars
@@ -162,7 +198,8 @@ Decided  == pc \in {"running", "refused"}
 Refused  == pc = "refused"
 Accepted == pc = "running"
 
-TypeOK == /\ v \in Vectors /\ pc \in {"load", "configure", "running", "refused"} /\ i \in 1..(Len(Engines) + 1)
+TypeOK == /\ flag \in BOOLEAN /\ snap \in [ClientHolders -> BOOLEAN]
+          /\ v \in Vectors /\ pc \in {"load", "configure", "running", "refused"} /\ i \in 1..(Len(Engines) + 1)
           /\ verdict \in {None, "performed", "refused"}
 
 \* with strict mode on the node refuses to start when configured insecurely
@@ -181,7 +218,9 @@ DummyInNonStrict == (act.kind \in {"dummy-sign", "dummy-verify"} /\ ~v.strict /\
 NoUnlistedContextInStrict == (act.kind = "jsonld" /\ act.arg = "unlisted" /\ v.strict) => verdict = "refused"
 UnlistedContextInNonStrict == (act.kind = "jsonld" /\ act.arg = "unlisted" /\ ~v.strict) => verdict = "performed"
 \* plain-HTTP outbound requests and endpoints
-NoPlainHttpInStrict == (act.kind = "outbound" /\ v.strict) => ~PlainHttpSent(v, act.arg, act.entry)
+NoPlainHttpInStrict == (act.kind = "outbound" /\ v.strict) => ~PlainHttpSent(v, act.arg, act.entry, flag, snap)
+\* ... whenever the client was constructed: on a running strict node the flag is on, although every holder built its client before
+StrictFlagOnWhenRunning == (Accepted /\ v.strict) => (flag /\ \A h \in ClientHolders : ~snap[h])
 OutboundInNonStrict == (act.kind = "outbound" /\ ~v.strict) => verdict = "performed"
 \* no unauthenticated network: a strict node that runs without TLS has no gRPC network at all
 NoNetworkWithoutTls == (Accepted /\ v.strict /\ v.tls = "off") => ~HasNuts(v.did)
